@@ -110,6 +110,30 @@ def run_number_equality(rec, F, which):
     rec.inst(R, "%s: PartialEq compares numbers as f64" % which, ok=ok, loc=eq.loc)
     if not ok:
         rec.finding(R, "F10.eq/%s/bitwise-eq" % which, "%s::Value equality compares raw bits: 0 == -0 is false and NaN == NaN is true in this representation (IEEE in the other one)" % which, loc=eq.loc, fn=eq.path)
+    # reflexivity on the payload-free kinds: the VM tests `x == VALUE_UNDEFINED` / `== VALUE_NIL` with this operator
+    if which == "unboxed":
+        adt = F.adts.get("laythe_core::value::unboxed::Value")
+        t0 = None
+        for bi in sorted(eq.reachable):
+            if eq.blocks[bi]["t"]["k"] == "switch" and eq.blocks[bi]["t"].get("ty") != "bool":
+                t0 = eq.blocks[bi]["t"]
+                break
+        if adt is None or t0 is None:
+            rec.anchor_lost("F10.eq", "variants of unboxed::Value / discriminant switch in eq")
+        else:
+            listed = {v: dst for v, dst in t0["targets"]}
+            for vi in adt.get("variants", []):
+                if vi.get("fields"):
+                    continue
+                dv = str(vi.get("discr"))
+                dst = listed.get(dv, t0["otherwise"])
+                # does this arm just answer false?
+                blk = eq.blocks[dst]
+                only_false = len(blk["s"]) == 1 and blk["s"][0]["r"]["k"] == "use" and blk["s"][0]["r"]["a"].get("const") and blk["s"][0]["r"]["a"].get("int") == "0" and blk["s"][0]["d"]["l"] == 0
+                okr = not only_false
+                rec.inst(R, "unboxed: %s == %s can hold" % (vi["name"], vi["name"]), ok=okr, loc=eq.loc)
+                if not okr:
+                    rec.finding(R, "F10.eq/unboxed/irreflexive/%s" % vi["name"], "unboxed::Value::eq has no arm for (%s, %s): the value never equals itself in this representation (it does in the NaN-boxed one), so VM tests of the form `x == VALUE_%s` are always false here - reading a module variable or boxed local before its definition pushes the undefined sentinel instead of raising 'Undefined variable', and the next use of it panics the host" % (vi["name"], vi["name"], vi["name"].upper()), loc=eq.loc, fn=eq.path)
     # exactness: nothing but the IEEE comparison itself decides number equality (no tolerance, no rounding)
     if ok:
         extra = []
